@@ -17,17 +17,23 @@ open NemoVerif NemoVerif.Pipeline
 
 /-! ### the dispatcher -/
 
-/-- `execute_action` never lets an action's exception escape — the only thing it forwards is
-    `LLMCallException` — and answers `(None, "failed")` for a raising action. -/
+/-- `execute_action` never lets an action's exception escape — whatever the exception VALUE is (any
+    message: empty, multi-line, …; `Outcome.raise e` for every `e`) — the only thing it forwards is
+    `LLMCallException`. -/
 theorem execute_never_raises {α : Type} (o : Option (Dispatch.Outcome α)) (h : o ≠ some .llmRaise) :
     ∃ r, Dispatch.execute o = .ok r :=
   Pipeline.execute_contains o h
 
-theorem execute_raise_is_failed {α : Type} :
-    Dispatch.execute (some (Dispatch.Outcome.raise : Dispatch.Outcome α)) = .ok (none, .failed) := rfl
+/-- A raising action is answered with `(None, "failed")`, for every exception value. -/
+theorem execute_raise_is_failed {α : Type} (e : Dispatch.Exn) :
+    Dispatch.execute (some (Dispatch.Outcome.raise e : Dispatch.Outcome α)) = .ok (none, .failed) := rfl
+
+/-- … in particular for an exception whose `str()` is empty (`TimeoutError()`, a bare `assert`). -/
+example : Dispatch.execute (some (Dispatch.Outcome.raise ⟨""⟩ : Dispatch.Outcome Nat)) = .ok (none, .failed) := rfl
 
 /-- … which both runtimes turn into the internal-error result, and a rail flow into the verdict `fault`. -/
-theorem raise_is_fault : verdictOf (Dispatch.run (some (Dispatch.Outcome.raise : Dispatch.Outcome RailRet))) = .fault := rfl
+theorem raise_is_fault (e : Dispatch.Exn) :
+    verdictOf (Dispatch.run (some (Dispatch.Outcome.raise e : Dispatch.Outcome RailRet))) = .fault := rfl
 
 /-! ### Colang 1.0 -/
 
@@ -172,7 +178,7 @@ theorem next_turn_fully_checked_v1 (cfg : Cfg) (h : HistV1) (t t' : Turn) (hi : 
 example : ∃ (cfg : Cfg) (t : Turn), WF cfg .input ∧ WF cfg .output
     ∧ (turnV1 cfg initV1 t).2.1 = { texts := [internalError], exc := none, raised := false } :=
   ⟨{ inRails := [0, 1], outRails := [0], dialog := false, exc := false, stops := fun _ _ => true, flagReset := true },
-   Turn.ofImpl "u" "b" .free (fun r _ => if r = 1 then some .raise else some (.ret ⟨true, none⟩)) (fun _ _ => some (.ret ⟨true, none⟩)) false false,
+   Turn.ofImpl "u" "b" .free (fun r _ => if r = 1 then some (.raise ⟨""⟩) else some (.ret ⟨true, none⟩)) (fun _ _ => some (.ret ⟨true, none⟩)) false false,
    fun _ _ => rfl, fun _ _ => rfl, by decide⟩
 
 /-! ### Colang 2.x (guardrails.co) -/
